@@ -68,15 +68,27 @@ def load_known():
     return data.get('findings', [])
 
 
+def _undecided(res):
+    """the item ended without a verdict for some obligation (solver gave up / path budget): worth one slower retry"""
+    if res.error:
+        return 'Inconclusive' in res.error or 'Timeout' in res.error
+    return any(ob.status == 'unknown' for ob in res.obs)
+
+
 def _run_item(args):
-    worker, item = args
+    worker, item = args[0], args[1]
+    scale = args[2] if len(args) > 2 else None
     t0 = time.time()
     try:
+        if scale:
+            from . import symx
+            symx.TIMEOUT_SCALE[0] = scale
         res = worker(item)
     except BaseException as e:  # noqa: B902 - a crashing item is a harness error, not a pass
         res = ItemResult(str(item)[:200])
         res.error = f'{type(e).__name__}: {e}\n{traceback.format_exc()[-1500:]}'
     res.wall = time.time() - t0
+    res.item = item
     return res
 
 
@@ -96,6 +108,18 @@ def run_check(pid: str, tier: str, items: list, worker, *, functions_encoded, bo
         with ctx.Pool(procs, maxtasksperchild=50) as pool:
             for r in pool.imap_unordered(_run_item, [(worker, it) for it in items], chunksize=1):
                 results.append(r)
+    # one retry, with four times the solver time caps and little parallelism, of the items that ended undecided
+    retried = 0
+    retry = [(k, r) for k, r in enumerate(results) if _undecided(r)]
+    if retry and len(retry) <= 40 and hasattr(results[0], 'item'):
+        ctx = mp.get_context('fork')
+        with ctx.Pool(min(4, len(retry)), maxtasksperchild=10) as pool:
+            again = pool.map(_run_item, [(worker, r.item, 4.0) for _, r in retry], chunksize=1)
+        for (k, old), new in zip(retry, again):
+            if not _undecided(new):
+                new.item = old.item
+                results[k] = new
+                retried += 1
     known = [k for k in load_known() if k.get('property') == pid]
     known_keys = {k['key']: k for k in known}
     obligations = discharged = 0
